@@ -4,6 +4,7 @@ import (
 	"errors"
 	"fmt"
 	"runtime/debug"
+	"strings"
 
 	"github.com/semihalev/twig"
 )
@@ -127,8 +128,41 @@ func c01BodiesThatFailHalfway(res *Result) {
 					fail(w[0]+" after a body that failed", want, got, "the same engine renders the good template differently after "+bad+" failed")
 					break
 				}
+				// the same through RenderTo, and through the template handles
+				var sink, sb strings.Builder
+				e.RenderTo(&sink, fmt.Sprintf("bad%d", fi), ctx())
+				if t, lerr := e.Load(fmt.Sprintf("bad%d", fi)); lerr == nil {
+					t.Render(ctx())
+					t.RenderTo(&sink, ctx())
+				}
+				err = e.RenderTo(&sb, "good", ctx())
+				got = sb.String()
+				if err != nil {
+					got = "error: " + err.Error()
+				}
+				if got != want {
+					fail(w[0]+" through RenderTo after a RenderTo that failed", want, got, "the same engine writes something else for the good template after RenderTo of "+bad+" failed")
+					break
+				}
+				if t, lerr := e.Load("good"); lerr == nil {
+					sb.Reset()
+					err = t.RenderTo(&sb, ctx())
+					got = sb.String()
+					if err != nil {
+						got = "error: " + err.Error()
+					}
+					if got != want {
+						fail(w[0]+" through Template.RenderTo after renders that failed", want, got, "")
+						break
+					}
+				}
 				o := mk()
 				o.RegisterString("good", good)
+				sb.Reset()
+				if oerr := o.RenderTo(&sb, "good", ctx()); oerr != nil || sb.String() != want {
+					fail(w[0]+" on another engine through RenderTo after renders that failed", want, sb.String(), "a new engine writes something else for the good template after "+bad+" failed elsewhere")
+					break
+				}
 				got, err = o.Render("good", ctx())
 				if err != nil {
 					got = "error: " + err.Error()
